@@ -7,6 +7,67 @@ func init() {
 	vHarnesses["VerifC17Docs"] = VerifC17Docs
 	vHarnesses["VerifC17Canary"] = VerifC17Canary
 	vHarnesses["VerifC17Deep"] = VerifC17Deep
+	vHarnesses["VerifC17KeyedSet"] = VerifC17KeyedSet
+	vHarnesses["VerifC17Nest"] = VerifC17Nest
+	vHarnesses["VerifC17Kinds"] = VerifC17Kinds
+}
+
+func vIsMergeMeta(k int) bool { return k == mMerge || k == mMultisetMerge || k == mSetMerge }
+
+// vKeyedSetArray: members identified by "id" (pairwise different numbers within one array),
+// with a second member "v" that is absent, a number, a one-element array or a small object;
+// with MIXED=1 a member may also be a plain number.
+func vKeyedSetArray(maxLen int) jsonArray {
+	n := vChoice(maxLen + 1)
+	a := make(jsonArray, 0, n)
+	var ids []float64
+	for i := 0; i < n; i++ {
+		if vParam("MIXED", 0) == 1 && vChoice(2) == 1 {
+			a = append(a, vNum())
+			continue
+		}
+		id := vF64()
+		for _, o := range ids {
+			vAssume(id != o)
+		}
+		ids = append(ids, id)
+		o := jsonObject{"id": jsonNumber(id)}
+		switch vChoice(vParam("VK", 4)) {
+		case 0:
+		case 1:
+			o["v"] = vNum()
+		case 2:
+			o["v"] = vNumArray(1)
+		default:
+			o["v"] = jsonObject{"c": vNum()}
+		}
+		a = append(a, o)
+	}
+	return a
+}
+
+// VerifC17KeyedSet: SET + Setkeys("id") — the metadata the v1 CLI builds for -set -setkeys id:
+// objects are matched by identity and sub-diffed below a ["set","setkeys=id"] path element.
+func VerifC17KeyedSet() {
+	a, b := vKeyedSetArray(vParam("KN", 2)), vKeyedSetArray(vParam("KM", 1))
+	how := [...]int{0, 1}[vChoice(vParam("WRAPS", 2))]
+	vC17Check(vWrap(a, how), vWrap(b, how), mSetSetkeys, "c17.keyedset")
+}
+
+// VerifC17Nest: arrays whose members are numbers, arrays, one-key objects or {} — every array
+// reading, nested members hashed with the metadata in force.
+func VerifC17Nest() {
+	k := vMetaChoice(0x197) // not SET+Setkeys: members without the key all share one identity (outside the property)
+	n := vParam("N", 2)
+	how := [...]int{0, 1, 2}[vChoice(vParam("WRAPS", 2))]
+	vC17Check(vWrap(vNestArray(n), how), vWrap(vNestArray(n), how), k, "c17.nest")
+}
+
+// VerifC17Kinds: arrays mixing numbers, strings, booleans and nulls.
+func VerifC17Kinds() {
+	k := vMetaChoice(0x07)
+	n := vParam("N", 2)
+	vC17Check(vKindArray(n), vKindArray(n), k, "c17.kinds")
 }
 
 // VerifC17Deep: arrays and small objects below a chain of keys / array positions of every
@@ -47,7 +108,7 @@ func vC17Check(a, b JsonNode, k int, label string) {
 		eps = vF64()
 		vAssume(eps >= 0)
 	}
-	if k == mMerge {
+	if vIsMergeMeta(k) {
 		vAssume(!vHasNull(a) && !vHasNull(b))
 	}
 	if vKnown("hash.alias") {
